@@ -208,6 +208,10 @@ func traverseArrayWithIndices(node *CandidateNode, indices []*CandidateNode, pre
 			newMatches.PushBack(valueNode)
 			continue
 		}
+		if index-contentLength >= 1000000 {
+			// one null node is created per missing element: refuse an index that would not fit in memory
+			return nil, fmt.Errorf("index [%v] is too far beyond the end of the array (size %v) to pad it with nulls", index, contentLength)
+		}
 		for contentLength <= index {
 			if contentLength == 0 {
 				// default to nice yaml formatting
